@@ -340,7 +340,60 @@ pub fn run(cfg: &Cfg, rep: &mut Report) {
         rep.inconclusive.push(format!("only {} eligible opcodes found", el.len()));
         return;
     }
-    let n = cfg.n((el.len() as u64) * 12, (el.len() as u64) * 150);
+    // static cross-projection: the field list of every sr::ops variant lines up with the logical
+    // operands of its grammar entry (count, optionality, repetition, kind class); otherwise operands
+    // cannot be carried over positionally
+    run_stage(cfg, rep, "field-lists", 1, |idx, _rng, r| {
+        let d = db();
+        let rp = || crate::util::replay_ref(cfg, "field-lists", idx);
+        for (table, tname) in [(SR_OP, "Op"), (crate::generated::sr_ops::SR_BRANCH, "Branch"), (SR_TERMINATOR, "Terminator")] {
+            for (name, fields) in table.iter() {
+                let ri = match d.by_name.get(*name) {
+                    Some(i) => &d.insts[*i],
+                    None => continue,
+                };
+                if *name == "Phi" || *name == "Switch" || (tname == "Terminator" && *name == "Branch") {
+                    continue;
+                }
+                let logical: Vec<(K, Q)> = ri.ops.iter().filter(|(k, _)| !matches!(k, K::IdResultType | K::IdResult)).cloned().collect();
+                let mut why: Option<String> = None;
+                if fields.len() != logical.len() {
+                    why = Some(format!("{} field(s) for {} logical operand(s)", fields.len(), logical.len()));
+                } else {
+                    for ((f, ty), (k, q)) in fields.iter().zip(logical.iter()) {
+                        let opt = ty.starts_with("Option<");
+                        let vec = ty.starts_with("Vec<");
+                        let q_ok = match q {
+                            Q::One => !opt && !vec,
+                            Q::ZeroOrOne => opt,
+                            Q::ZeroOrMore => vec,
+                        };
+                        let inner = ty.trim_start_matches("Option<").trim_start_matches("Vec<").trim_end_matches('>');
+                        let k_ok = match k {
+                            K::IdRef | K::IdScope | K::IdMemorySemantics => inner == "spirv::Word" || inner.starts_with("Token<"),
+                            K::LiteralInteger | K::LiteralFloat | K::LiteralExtInstInteger => inner == "u32" || inner == "spirv::Word",
+                            K::LiteralString => inner == "String",
+                            K::PairIdRefIdRef | K::PairIdRefLiteralInteger | K::PairLiteralIntegerIdRef => inner.starts_with('('),
+                            K::LiteralContextDependentNumber | K::LiteralSpecConstantOpInteger => true,
+                            // a parameterised mask may be modelled together with its parameters:
+                            // (spirv::ImageOperands, Vec<spirv::Word>)
+                            other => inner == format!("spirv::{}", crate::gram::kind_name(*other)) || inner.starts_with(&format!("(spirv::{},", crate::gram::kind_name(*other))),
+                        };
+                        if !q_ok || !k_ok {
+                            why = Some(format!("field `{}: {}` does not fit operand {}:{:?}", f, ty, crate::gram::kind_name(*k), q));
+                            break;
+                        }
+                    }
+                }
+                match why {
+                    Some(w) => r.violation(format!("C18:field-list:{}", name), format!("sr::ops::{}::{}: {}", tname, name, w), rp()),
+                    None => r.count("field_lists_compared", 1),
+                }
+                r.evaluations += 1;
+            }
+        }
+    });
+    let n = cfg.n((el.len() as u64) * 12, (el.len() as u64) * 4000);
     run_stage(cfg, rep, "modules", n, |idx, rng, r| {
         let b = match build(rng, idx as usize) {
             Some(b) => b,
